@@ -5,6 +5,8 @@ use syn::parse_macro_input;
 mod bit_size;
 mod bitenum;
 mod bitfield;
+#[cfg(feature = "verif_hooks")]
+mod verif_hooks;
 
 /// Defines a bitfield: `#[bitfield(<base-data-type>, default = 0)]`
 /// `<base-data-type>` is a data type like [`u32`] which is used to represent all the bits of the bitfield.
@@ -21,6 +23,7 @@ pub fn bitfield(args: TokenStream1, input: TokenStream1) -> TokenStream1 {
 /// given base data type (for example, a bitenum over [`u2`] with 4 values is exhaustive)
 ///
 /// [`u2`]: arbitrary_int::u2
+#[cfg_attr(feature = "verif_hooks", allow(unreachable_patterns))]
 #[proc_macro_attribute]
 pub fn bitenum(args: TokenStream1, input: TokenStream1) -> TokenStream1 {
     let mut config = bitenum::Config::default();
@@ -30,6 +33,11 @@ pub fn bitenum(args: TokenStream1, input: TokenStream1) -> TokenStream1 {
 
     let input = parse_macro_input!(input as syn::ItemEnum);
     match bitenum::bitenum(config, &input) {
+        #[cfg(feature = "verif_hooks")]
+        Ok(stream) => {
+            verif_hooks::dump("bitenum", &input.ident.to_string(), &stream.to_string());
+            stream.into()
+        }
         Ok(stream) => stream.into(),
         Err(err) => {
             let error = err.into_compile_error();
